@@ -143,81 +143,163 @@ fn xpub_case<const LS: usize, const LO: usize>(mode: Mode) {
     fgt(a);
 }
 
-macro_rules! xpub_dispatch {
-    ($mode:expr; $( ($s:literal, $o:literal) ),* ) => {{
-        let sel: u8 = kani::any();
-        let mut n: u8 = 0;
-        $(
-            if sel == n { xpub_case::<$s, $o>($mode); }
-            n += 1;
-        )*
-        kani::assume(sel < n);
-    }};
+macro_rules! xpub_one {
+    ($name:ident, $mode:expr, $s:literal, $o:literal) => {
+        #[kani::proof]
+        #[kani::unwind(5)]
+        #[kani::stub(zffi::secp256k1_ec_pubkey_cmp, model_ec_pubkey_cmp)]
+        #[kani::stub(b58::encode_check_to_fmt, model_encode_check_to_fmt)]
+        #[kani::stub(XpubT::encode, model_xpub_encode)]
+        #[kani::stub(sfmt::format, model_format)]
+        fn $name() { xpub_case::<$s, $o>($mode); }
+    };
 }
-macro_rules! xpub_all_le2 { ($mode:expr) => { xpub_dispatch!($mode; (0,0),(0,1),(0,2),(1,0),(1,1),(1,2),(2,0),(2,1),(2,2)) }; }
-macro_rules! xpub_with3 { ($mode:expr) => { xpub_dispatch!($mode; (0,3),(1,3),(2,3),(3,3),(3,0),(3,1),(3,2)) }; }
-
-//@ harness: c14_global_xpub_no_panic_le2 class=B tier=quick bound="one xpub entry per operand, derivation paths of every length pair in 0..=2 x 0..=2, all contents symbolic" props=C10,C14
-//@ clause: Global::merge never panics on any pair of key sources for the same xpub (EXPECTED to fail on the pinned tree: D4, `derivation1.len() - derivation2.len()` underflows when the incoming path is shorter and not a suffix)
-#[kani::proof]
-#[kani::unwind(5)]
-#[kani::stub(zffi::secp256k1_ec_pubkey_cmp, model_ec_pubkey_cmp)]
-#[kani::stub(b58::encode_check_to_fmt, model_encode_check_to_fmt)]
-#[kani::stub(XpubT::encode, model_xpub_encode)]
-#[kani::stub(sfmt::format, model_format)]
-fn c14_global_xpub_no_panic_le2() { xpub_all_le2!(Mode::NoPanic); }
-
-//@ harness: c14_global_xpub_no_panic_len3 class=B tier=thorough bound="length pairs with one path of length 3" props=C10,C14
-//@ clause: same, path length pairs (0..=3, 3) and (3, 0..=2) (EXPECTED to fail: D4)
-#[kani::proof]
-#[kani::unwind(5)]
-#[kani::stub(zffi::secp256k1_ec_pubkey_cmp, model_ec_pubkey_cmp)]
-#[kani::stub(b58::encode_check_to_fmt, model_encode_check_to_fmt)]
-#[kani::stub(XpubT::encode, model_xpub_encode)]
-#[kani::stub(sfmt::format, model_format)]
-fn c14_global_xpub_no_panic_len3() { xpub_with3!(Mode::NoPanic); }
-
-//@ harness: c14_global_xpub_reconcile_le2 class=B tier=quick bound="path length pairs 0..=2 x 0..=2" props=C14
+//@ harness: c14_global_xpub_no_panic_0_0 class=B tier=thorough bound="one xpub entry per operand; own derivation path of length 0, incoming of length 0, all contents and both fingerprints symbolic" props=C10,C14 timeout=1500
+//@ clause: Global::merge never panics on any pair of key sources for the same xpub (defect D4: `derivation1.len() - derivation2.len()` underflowed when the incoming path was shorter and not a suffix)
+xpub_one!(c14_global_xpub_no_panic_0_0, Mode::NoPanic, 0, 0);
+//@ harness: c14_global_xpub_no_panic_0_1 class=B tier=thorough bound="one xpub entry per operand; own derivation path of length 0, incoming of length 1, all contents and both fingerprints symbolic" props=C10,C14 timeout=1500
+//@ clause: Global::merge never panics on any pair of key sources for the same xpub (defect D4: `derivation1.len() - derivation2.len()` underflowed when the incoming path was shorter and not a suffix)
+xpub_one!(c14_global_xpub_no_panic_0_1, Mode::NoPanic, 0, 1);
+//@ harness: c14_global_xpub_no_panic_0_2 class=B tier=thorough bound="one xpub entry per operand; own derivation path of length 0, incoming of length 2, all contents and both fingerprints symbolic" props=C10,C14 timeout=1500
+//@ clause: Global::merge never panics on any pair of key sources for the same xpub (defect D4: `derivation1.len() - derivation2.len()` underflowed when the incoming path was shorter and not a suffix)
+xpub_one!(c14_global_xpub_no_panic_0_2, Mode::NoPanic, 0, 2);
+//@ harness: c14_global_xpub_no_panic_0_3 class=B tier=thorough bound="one xpub entry per operand; own derivation path of length 0, incoming of length 3, all contents and both fingerprints symbolic" props=C10,C14 timeout=1500
+//@ clause: Global::merge never panics on any pair of key sources for the same xpub (defect D4: `derivation1.len() - derivation2.len()` underflowed when the incoming path was shorter and not a suffix)
+xpub_one!(c14_global_xpub_no_panic_0_3, Mode::NoPanic, 0, 3);
+//@ harness: c14_global_xpub_no_panic_1_0 class=B tier=thorough bound="one xpub entry per operand; own derivation path of length 1, incoming of length 0, all contents and both fingerprints symbolic" props=C10,C14 timeout=1500
+//@ clause: Global::merge never panics on any pair of key sources for the same xpub (defect D4: `derivation1.len() - derivation2.len()` underflowed when the incoming path was shorter and not a suffix)
+xpub_one!(c14_global_xpub_no_panic_1_0, Mode::NoPanic, 1, 0);
+//@ harness: c14_global_xpub_no_panic_1_1 class=B tier=thorough bound="one xpub entry per operand; own derivation path of length 1, incoming of length 1, all contents and both fingerprints symbolic" props=C10,C14 timeout=1500
+//@ clause: Global::merge never panics on any pair of key sources for the same xpub (defect D4: `derivation1.len() - derivation2.len()` underflowed when the incoming path was shorter and not a suffix)
+xpub_one!(c14_global_xpub_no_panic_1_1, Mode::NoPanic, 1, 1);
+//@ harness: c14_global_xpub_no_panic_1_2 class=B tier=thorough bound="one xpub entry per operand; own derivation path of length 1, incoming of length 2, all contents and both fingerprints symbolic" props=C10,C14 timeout=1500
+//@ clause: Global::merge never panics on any pair of key sources for the same xpub (defect D4: `derivation1.len() - derivation2.len()` underflowed when the incoming path was shorter and not a suffix)
+xpub_one!(c14_global_xpub_no_panic_1_2, Mode::NoPanic, 1, 2);
+//@ harness: c14_global_xpub_no_panic_1_3 class=B tier=thorough bound="one xpub entry per operand; own derivation path of length 1, incoming of length 3, all contents and both fingerprints symbolic" props=C10,C14 timeout=1500
+//@ clause: Global::merge never panics on any pair of key sources for the same xpub (defect D4: `derivation1.len() - derivation2.len()` underflowed when the incoming path was shorter and not a suffix)
+xpub_one!(c14_global_xpub_no_panic_1_3, Mode::NoPanic, 1, 3);
+//@ harness: c14_global_xpub_no_panic_2_0 class=B tier=thorough bound="one xpub entry per operand; own derivation path of length 2, incoming of length 0, all contents and both fingerprints symbolic" props=C10,C14 timeout=1500
+//@ clause: Global::merge never panics on any pair of key sources for the same xpub (defect D4: `derivation1.len() - derivation2.len()` underflowed when the incoming path was shorter and not a suffix)
+xpub_one!(c14_global_xpub_no_panic_2_0, Mode::NoPanic, 2, 0);
+//@ harness: c14_global_xpub_no_panic_2_1 class=B tier=thorough bound="one xpub entry per operand; own derivation path of length 2, incoming of length 1, all contents and both fingerprints symbolic" props=C10,C14 timeout=1500
+//@ clause: Global::merge never panics on any pair of key sources for the same xpub (defect D4: `derivation1.len() - derivation2.len()` underflowed when the incoming path was shorter and not a suffix)
+xpub_one!(c14_global_xpub_no_panic_2_1, Mode::NoPanic, 2, 1);
+//@ harness: c14_global_xpub_no_panic_2_2 class=B tier=thorough bound="one xpub entry per operand; own derivation path of length 2, incoming of length 2, all contents and both fingerprints symbolic" props=C10,C14 timeout=1500
+//@ clause: Global::merge never panics on any pair of key sources for the same xpub (defect D4: `derivation1.len() - derivation2.len()` underflowed when the incoming path was shorter and not a suffix)
+xpub_one!(c14_global_xpub_no_panic_2_2, Mode::NoPanic, 2, 2);
+//@ harness: c14_global_xpub_no_panic_2_3 class=B tier=thorough bound="one xpub entry per operand; own derivation path of length 2, incoming of length 3, all contents and both fingerprints symbolic" props=C10,C14 timeout=1500
+//@ clause: Global::merge never panics on any pair of key sources for the same xpub (defect D4: `derivation1.len() - derivation2.len()` underflowed when the incoming path was shorter and not a suffix)
+xpub_one!(c14_global_xpub_no_panic_2_3, Mode::NoPanic, 2, 3);
+//@ harness: c14_global_xpub_no_panic_3_0 class=B tier=thorough bound="one xpub entry per operand; own derivation path of length 3, incoming of length 0, all contents and both fingerprints symbolic" props=C10,C14 timeout=1500
+//@ clause: Global::merge never panics on any pair of key sources for the same xpub (defect D4: `derivation1.len() - derivation2.len()` underflowed when the incoming path was shorter and not a suffix)
+xpub_one!(c14_global_xpub_no_panic_3_0, Mode::NoPanic, 3, 0);
+//@ harness: c14_global_xpub_no_panic_3_1 class=B tier=thorough bound="one xpub entry per operand; own derivation path of length 3, incoming of length 1, all contents and both fingerprints symbolic" props=C10,C14 timeout=1500
+//@ clause: Global::merge never panics on any pair of key sources for the same xpub (defect D4: `derivation1.len() - derivation2.len()` underflowed when the incoming path was shorter and not a suffix)
+xpub_one!(c14_global_xpub_no_panic_3_1, Mode::NoPanic, 3, 1);
+//@ harness: c14_global_xpub_no_panic_3_2 class=B tier=thorough bound="one xpub entry per operand; own derivation path of length 3, incoming of length 2, all contents and both fingerprints symbolic" props=C10,C14 timeout=1500
+//@ clause: Global::merge never panics on any pair of key sources for the same xpub (defect D4: `derivation1.len() - derivation2.len()` underflowed when the incoming path was shorter and not a suffix)
+xpub_one!(c14_global_xpub_no_panic_3_2, Mode::NoPanic, 3, 2);
+//@ harness: c14_global_xpub_no_panic_3_3 class=B tier=thorough bound="one xpub entry per operand; own derivation path of length 3, incoming of length 3, all contents and both fingerprints symbolic" props=C10,C14 timeout=1500
+//@ clause: Global::merge never panics on any pair of key sources for the same xpub (defect D4: `derivation1.len() - derivation2.len()` underflowed when the incoming path was shorter and not a suffix)
+xpub_one!(c14_global_xpub_no_panic_3_3, Mode::NoPanic, 3, 3);
+//@ harness: c14_global_xpub_reconcile_0_0 class=B tier=thorough bound="one xpub entry per operand; own derivation path of length 0, incoming of length 0, all contents and both fingerprints symbolic" props=C14 timeout=1500
 //@ clause: key sources that are equal or suffix-related in either direction merge successfully and the entry with the longer derivation (and its fingerprint) is the result
-#[kani::proof]
-#[kani::unwind(5)]
-#[kani::stub(zffi::secp256k1_ec_pubkey_cmp, model_ec_pubkey_cmp)]
-#[kani::stub(b58::encode_check_to_fmt, model_encode_check_to_fmt)]
-#[kani::stub(XpubT::encode, model_xpub_encode)]
-#[kani::stub(sfmt::format, model_format)]
-fn c14_global_xpub_reconcile_le2() { xpub_all_le2!(Mode::Reconcile); }
+xpub_one!(c14_global_xpub_reconcile_0_0, Mode::Reconcile, 0, 0);
+//@ harness: c14_global_xpub_reconcile_0_1 class=B tier=thorough bound="one xpub entry per operand; own derivation path of length 0, incoming of length 1, all contents and both fingerprints symbolic" props=C14 timeout=1500
+//@ clause: key sources that are equal or suffix-related in either direction merge successfully and the entry with the longer derivation (and its fingerprint) is the result
+xpub_one!(c14_global_xpub_reconcile_0_1, Mode::Reconcile, 0, 1);
+//@ harness: c14_global_xpub_reconcile_0_2 class=B tier=thorough bound="one xpub entry per operand; own derivation path of length 0, incoming of length 2, all contents and both fingerprints symbolic" props=C14 timeout=1500
+//@ clause: key sources that are equal or suffix-related in either direction merge successfully and the entry with the longer derivation (and its fingerprint) is the result
+xpub_one!(c14_global_xpub_reconcile_0_2, Mode::Reconcile, 0, 2);
+//@ harness: c14_global_xpub_reconcile_0_3 class=B tier=thorough bound="one xpub entry per operand; own derivation path of length 0, incoming of length 3, all contents and both fingerprints symbolic" props=C14 timeout=1500
+//@ clause: key sources that are equal or suffix-related in either direction merge successfully and the entry with the longer derivation (and its fingerprint) is the result
+xpub_one!(c14_global_xpub_reconcile_0_3, Mode::Reconcile, 0, 3);
+//@ harness: c14_global_xpub_reconcile_1_0 class=B tier=thorough bound="one xpub entry per operand; own derivation path of length 1, incoming of length 0, all contents and both fingerprints symbolic" props=C14 timeout=1500
+//@ clause: key sources that are equal or suffix-related in either direction merge successfully and the entry with the longer derivation (and its fingerprint) is the result
+xpub_one!(c14_global_xpub_reconcile_1_0, Mode::Reconcile, 1, 0);
+//@ harness: c14_global_xpub_reconcile_1_1 class=B tier=thorough bound="one xpub entry per operand; own derivation path of length 1, incoming of length 1, all contents and both fingerprints symbolic" props=C14 timeout=1500
+//@ clause: key sources that are equal or suffix-related in either direction merge successfully and the entry with the longer derivation (and its fingerprint) is the result
+xpub_one!(c14_global_xpub_reconcile_1_1, Mode::Reconcile, 1, 1);
+//@ harness: c14_global_xpub_reconcile_1_2 class=B tier=thorough bound="one xpub entry per operand; own derivation path of length 1, incoming of length 2, all contents and both fingerprints symbolic" props=C14 timeout=1500
+//@ clause: key sources that are equal or suffix-related in either direction merge successfully and the entry with the longer derivation (and its fingerprint) is the result
+xpub_one!(c14_global_xpub_reconcile_1_2, Mode::Reconcile, 1, 2);
+//@ harness: c14_global_xpub_reconcile_1_3 class=B tier=thorough bound="one xpub entry per operand; own derivation path of length 1, incoming of length 3, all contents and both fingerprints symbolic" props=C14 timeout=1500
+//@ clause: key sources that are equal or suffix-related in either direction merge successfully and the entry with the longer derivation (and its fingerprint) is the result
+xpub_one!(c14_global_xpub_reconcile_1_3, Mode::Reconcile, 1, 3);
+//@ harness: c14_global_xpub_reconcile_2_0 class=B tier=thorough bound="one xpub entry per operand; own derivation path of length 2, incoming of length 0, all contents and both fingerprints symbolic" props=C14 timeout=1500
+//@ clause: key sources that are equal or suffix-related in either direction merge successfully and the entry with the longer derivation (and its fingerprint) is the result
+xpub_one!(c14_global_xpub_reconcile_2_0, Mode::Reconcile, 2, 0);
+//@ harness: c14_global_xpub_reconcile_2_1 class=B tier=thorough bound="one xpub entry per operand; own derivation path of length 2, incoming of length 1, all contents and both fingerprints symbolic" props=C14 timeout=1500
+//@ clause: key sources that are equal or suffix-related in either direction merge successfully and the entry with the longer derivation (and its fingerprint) is the result
+xpub_one!(c14_global_xpub_reconcile_2_1, Mode::Reconcile, 2, 1);
+//@ harness: c14_global_xpub_reconcile_2_2 class=B tier=thorough bound="one xpub entry per operand; own derivation path of length 2, incoming of length 2, all contents and both fingerprints symbolic" props=C14 timeout=1500
+//@ clause: key sources that are equal or suffix-related in either direction merge successfully and the entry with the longer derivation (and its fingerprint) is the result
+xpub_one!(c14_global_xpub_reconcile_2_2, Mode::Reconcile, 2, 2);
+//@ harness: c14_global_xpub_reconcile_2_3 class=B tier=thorough bound="one xpub entry per operand; own derivation path of length 2, incoming of length 3, all contents and both fingerprints symbolic" props=C14 timeout=1500
+//@ clause: key sources that are equal or suffix-related in either direction merge successfully and the entry with the longer derivation (and its fingerprint) is the result
+xpub_one!(c14_global_xpub_reconcile_2_3, Mode::Reconcile, 2, 3);
+//@ harness: c14_global_xpub_reconcile_3_0 class=B tier=thorough bound="one xpub entry per operand; own derivation path of length 3, incoming of length 0, all contents and both fingerprints symbolic" props=C14 timeout=1500
+//@ clause: key sources that are equal or suffix-related in either direction merge successfully and the entry with the longer derivation (and its fingerprint) is the result
+xpub_one!(c14_global_xpub_reconcile_3_0, Mode::Reconcile, 3, 0);
+//@ harness: c14_global_xpub_reconcile_3_1 class=B tier=thorough bound="one xpub entry per operand; own derivation path of length 3, incoming of length 1, all contents and both fingerprints symbolic" props=C14 timeout=1500
+//@ clause: key sources that are equal or suffix-related in either direction merge successfully and the entry with the longer derivation (and its fingerprint) is the result
+xpub_one!(c14_global_xpub_reconcile_3_1, Mode::Reconcile, 3, 1);
+//@ harness: c14_global_xpub_reconcile_3_2 class=B tier=thorough bound="one xpub entry per operand; own derivation path of length 3, incoming of length 2, all contents and both fingerprints symbolic" props=C14 timeout=1500
+//@ clause: key sources that are equal or suffix-related in either direction merge successfully and the entry with the longer derivation (and its fingerprint) is the result
+xpub_one!(c14_global_xpub_reconcile_3_2, Mode::Reconcile, 3, 2);
+//@ harness: c14_global_xpub_reconcile_3_3 class=B tier=thorough bound="one xpub entry per operand; own derivation path of length 3, incoming of length 3, all contents and both fingerprints symbolic" props=C14 timeout=1500
+//@ clause: key sources that are equal or suffix-related in either direction merge successfully and the entry with the longer derivation (and its fingerprint) is the result
+xpub_one!(c14_global_xpub_reconcile_3_3, Mode::Reconcile, 3, 3);
+//@ harness: c14_global_xpub_conflict_0_0 class=B tier=thorough bound="one xpub entry per operand; own derivation path of length 0, incoming of length 0, all contents and both fingerprints symbolic" props=C14 timeout=1500
+//@ clause: key sources that are neither equal nor suffix-related (equal path with different fingerprint, same length different path, different length not a suffix) yield Err(MergeConflict)
+xpub_one!(c14_global_xpub_conflict_0_0, Mode::Conflict, 0, 0);
+//@ harness: c14_global_xpub_conflict_0_1 class=B tier=thorough bound="one xpub entry per operand; own derivation path of length 0, incoming of length 1, all contents and both fingerprints symbolic" props=C14 timeout=1500
+//@ clause: key sources that are neither equal nor suffix-related (equal path with different fingerprint, same length different path, different length not a suffix) yield Err(MergeConflict)
+xpub_one!(c14_global_xpub_conflict_0_1, Mode::Conflict, 0, 1);
+//@ harness: c14_global_xpub_conflict_0_2 class=B tier=thorough bound="one xpub entry per operand; own derivation path of length 0, incoming of length 2, all contents and both fingerprints symbolic" props=C14 timeout=1500
+//@ clause: key sources that are neither equal nor suffix-related (equal path with different fingerprint, same length different path, different length not a suffix) yield Err(MergeConflict)
+xpub_one!(c14_global_xpub_conflict_0_2, Mode::Conflict, 0, 2);
+//@ harness: c14_global_xpub_conflict_0_3 class=B tier=thorough bound="one xpub entry per operand; own derivation path of length 0, incoming of length 3, all contents and both fingerprints symbolic" props=C14 timeout=1500
+//@ clause: key sources that are neither equal nor suffix-related (equal path with different fingerprint, same length different path, different length not a suffix) yield Err(MergeConflict)
+xpub_one!(c14_global_xpub_conflict_0_3, Mode::Conflict, 0, 3);
+//@ harness: c14_global_xpub_conflict_1_0 class=B tier=thorough bound="one xpub entry per operand; own derivation path of length 1, incoming of length 0, all contents and both fingerprints symbolic" props=C14 timeout=1500
+//@ clause: key sources that are neither equal nor suffix-related (equal path with different fingerprint, same length different path, different length not a suffix) yield Err(MergeConflict)
+xpub_one!(c14_global_xpub_conflict_1_0, Mode::Conflict, 1, 0);
+//@ harness: c14_global_xpub_conflict_1_1 class=B tier=thorough bound="one xpub entry per operand; own derivation path of length 1, incoming of length 1, all contents and both fingerprints symbolic" props=C14 timeout=1500
+//@ clause: key sources that are neither equal nor suffix-related (equal path with different fingerprint, same length different path, different length not a suffix) yield Err(MergeConflict)
+xpub_one!(c14_global_xpub_conflict_1_1, Mode::Conflict, 1, 1);
+//@ harness: c14_global_xpub_conflict_1_2 class=B tier=thorough bound="one xpub entry per operand; own derivation path of length 1, incoming of length 2, all contents and both fingerprints symbolic" props=C14 timeout=1500
+//@ clause: key sources that are neither equal nor suffix-related (equal path with different fingerprint, same length different path, different length not a suffix) yield Err(MergeConflict)
+xpub_one!(c14_global_xpub_conflict_1_2, Mode::Conflict, 1, 2);
+//@ harness: c14_global_xpub_conflict_1_3 class=B tier=thorough bound="one xpub entry per operand; own derivation path of length 1, incoming of length 3, all contents and both fingerprints symbolic" props=C14 timeout=1500
+//@ clause: key sources that are neither equal nor suffix-related (equal path with different fingerprint, same length different path, different length not a suffix) yield Err(MergeConflict)
+xpub_one!(c14_global_xpub_conflict_1_3, Mode::Conflict, 1, 3);
+//@ harness: c14_global_xpub_conflict_2_0 class=B tier=thorough bound="one xpub entry per operand; own derivation path of length 2, incoming of length 0, all contents and both fingerprints symbolic" props=C14 timeout=1500
+//@ clause: key sources that are neither equal nor suffix-related (equal path with different fingerprint, same length different path, different length not a suffix) yield Err(MergeConflict)
+xpub_one!(c14_global_xpub_conflict_2_0, Mode::Conflict, 2, 0);
+//@ harness: c14_global_xpub_conflict_2_1 class=B tier=thorough bound="one xpub entry per operand; own derivation path of length 2, incoming of length 1, all contents and both fingerprints symbolic" props=C14 timeout=1500
+//@ clause: key sources that are neither equal nor suffix-related (equal path with different fingerprint, same length different path, different length not a suffix) yield Err(MergeConflict)
+xpub_one!(c14_global_xpub_conflict_2_1, Mode::Conflict, 2, 1);
+//@ harness: c14_global_xpub_conflict_2_2 class=B tier=thorough bound="one xpub entry per operand; own derivation path of length 2, incoming of length 2, all contents and both fingerprints symbolic" props=C14 timeout=1500
+//@ clause: key sources that are neither equal nor suffix-related (equal path with different fingerprint, same length different path, different length not a suffix) yield Err(MergeConflict)
+xpub_one!(c14_global_xpub_conflict_2_2, Mode::Conflict, 2, 2);
+//@ harness: c14_global_xpub_conflict_2_3 class=B tier=thorough bound="one xpub entry per operand; own derivation path of length 2, incoming of length 3, all contents and both fingerprints symbolic" props=C14 timeout=1500
+//@ clause: key sources that are neither equal nor suffix-related (equal path with different fingerprint, same length different path, different length not a suffix) yield Err(MergeConflict)
+xpub_one!(c14_global_xpub_conflict_2_3, Mode::Conflict, 2, 3);
+//@ harness: c14_global_xpub_conflict_3_0 class=B tier=thorough bound="one xpub entry per operand; own derivation path of length 3, incoming of length 0, all contents and both fingerprints symbolic" props=C14 timeout=1500
+//@ clause: key sources that are neither equal nor suffix-related (equal path with different fingerprint, same length different path, different length not a suffix) yield Err(MergeConflict)
+xpub_one!(c14_global_xpub_conflict_3_0, Mode::Conflict, 3, 0);
+//@ harness: c14_global_xpub_conflict_3_1 class=B tier=thorough bound="one xpub entry per operand; own derivation path of length 3, incoming of length 1, all contents and both fingerprints symbolic" props=C14 timeout=1500
+//@ clause: key sources that are neither equal nor suffix-related (equal path with different fingerprint, same length different path, different length not a suffix) yield Err(MergeConflict)
+xpub_one!(c14_global_xpub_conflict_3_1, Mode::Conflict, 3, 1);
+//@ harness: c14_global_xpub_conflict_3_2 class=B tier=thorough bound="one xpub entry per operand; own derivation path of length 3, incoming of length 2, all contents and both fingerprints symbolic" props=C14 timeout=1500
+//@ clause: key sources that are neither equal nor suffix-related (equal path with different fingerprint, same length different path, different length not a suffix) yield Err(MergeConflict)
+xpub_one!(c14_global_xpub_conflict_3_2, Mode::Conflict, 3, 2);
+//@ harness: c14_global_xpub_conflict_3_3 class=B tier=thorough bound="one xpub entry per operand; own derivation path of length 3, incoming of length 3, all contents and both fingerprints symbolic" props=C14 timeout=1500
+//@ clause: key sources that are neither equal nor suffix-related (equal path with different fingerprint, same length different path, different length not a suffix) yield Err(MergeConflict)
+xpub_one!(c14_global_xpub_conflict_3_3, Mode::Conflict, 3, 3);
 
-//@ harness: c14_global_xpub_reconcile_len3 class=B tier=thorough bound="length pairs with one path of length 3" props=C14
-//@ clause: same as c14_global_xpub_reconcile_le2 for length pairs involving 3
-#[kani::proof]
-#[kani::unwind(5)]
-#[kani::stub(zffi::secp256k1_ec_pubkey_cmp, model_ec_pubkey_cmp)]
-#[kani::stub(b58::encode_check_to_fmt, model_encode_check_to_fmt)]
-#[kani::stub(XpubT::encode, model_xpub_encode)]
-#[kani::stub(sfmt::format, model_format)]
-fn c14_global_xpub_reconcile_len3() { xpub_with3!(Mode::Reconcile); }
-
-//@ harness: c14_global_xpub_conflict_le2 class=B tier=quick bound="path length pairs 0..=2 x 0..=2" props=C14
-//@ clause: key sources that are neither equal nor suffix-related (equal path with different fingerprint, same length different path, different length not a suffix) yield Err(MergeConflict) (EXPECTED to fail on the pinned tree: D4, equal path + different fingerprint is silently replaced; and the underflow panic)
-#[kani::proof]
-#[kani::unwind(5)]
-#[kani::stub(zffi::secp256k1_ec_pubkey_cmp, model_ec_pubkey_cmp)]
-#[kani::stub(b58::encode_check_to_fmt, model_encode_check_to_fmt)]
-#[kani::stub(XpubT::encode, model_xpub_encode)]
-#[kani::stub(sfmt::format, model_format)]
-fn c14_global_xpub_conflict_le2() { xpub_all_le2!(Mode::Conflict); }
-
-//@ harness: c14_global_xpub_conflict_len3 class=B tier=thorough bound="length pairs with one path of length 3" props=C14
-//@ clause: same as c14_global_xpub_conflict_le2 for length pairs involving 3 (EXPECTED to fail: D4)
-#[kani::proof]
-#[kani::unwind(5)]
-#[kani::stub(zffi::secp256k1_ec_pubkey_cmp, model_ec_pubkey_cmp)]
-#[kani::stub(b58::encode_check_to_fmt, model_encode_check_to_fmt)]
-#[kani::stub(XpubT::encode, model_xpub_encode)]
-#[kani::stub(sfmt::format, model_format)]
-fn c14_global_xpub_conflict_len3() { xpub_with3!(Mode::Conflict); }
-
-//@ harness: c14_global_xpub_disjoint class=B tier=quick bound="two different concrete xpubs, paths of length 1" props=C14
+//@ harness: c14_global_xpub_disjoint class=B tier=thorough bound="two different concrete xpubs, paths of length 1" props=C14
 //@ clause: xpub entries for different keys: the result holds both (union), in both merge orders
 #[kani::proof]
 #[kani::unwind(5)]
@@ -254,7 +336,7 @@ fn any_tweak() -> Tweak {
     }
 }
 
-//@ harness: c14_global_scalars_union class=B tier=quick bound="one scalar per operand" props=C14
+//@ harness: c14_global_scalars_union class=B tier=thorough bound="one scalar per operand" props=C14
 //@ clause: Global::merge: the scalars of the result are the sorted, duplicate-free union of the operands' scalars, in both merge orders
 #[kani::proof]
 #[kani::unwind(34)]
